@@ -129,7 +129,7 @@ def run(ctx):
         routs = ctx.impl("incremental", rc_cases, race=True, shards=4, env={"GORACE": "halt_on_error=1"})
         for c, o in zip(rc_cases, routs):
             ctx.count(("race", c["jitter"]), True, "race-build")
-            if "crash" in o and "DATA RACE" in str(o["crash"]):
+            if "crash" in o and ("DATA RACE" in str(o["crash"]) or "harness exit 66" in str(o["crash"])):   # 66 = the race detector's exit code
                 ctx.violation("cycle-error-written-to-shared-result",
                               "race detector: two waiters that found a cycle write Fatal of the same pending result "
                               "(task.go waitUntilDone `output.Fatal = err`)", {"input": c, "observed": o})
